@@ -676,6 +676,22 @@ def opt_alts(crate, s, depth=0):
         inner = strip_sym(strip_sym(s[1])[1])
         if inner[0] == "phi" or (inner[0] == "call" and isinstance(inner[1], str) and any(path_is(inner[1], n) for n in ("Option<T>::or", "Option<T>::or_else"))):
             return [(("field", ("downcast", a, "Some"), "0"), note) for a, note in opt_alts(crate, inner, depth + 1)]
+        if inner[0] == "call" and isinstance(inner[1], str) and path_is(inner[1], "Option<T>::map") and len(inner[2]) == 2:
+            # payload of opt.map(f): what f returns
+            f = strip_sym(inner[2][1])
+            if f[0] == "agg" and f[1] == "closure" and crate.by_path.get(f[5]) is not None:
+                payload = ("field", ("downcast", inner[2][0], "Some"), "0")
+
+                def sub(x):
+                    if not isinstance(x, tuple) or not x:
+                        return x
+                    if x[0] == "arg" and x[1] == 1:
+                        return payload
+                    if x[0] in ("capture", "const"):
+                        return x
+                    return tuple(sub(y) if isinstance(y, tuple) else y for y in x)
+
+                return opt_alts(crate, sub(Sym(crate.by_path[f[5]]).local(0)), depth + 1)
         return [(s, "")]
     if s[0] == "call" and isinstance(s[1], str):
         def run_closure(f, args=()):
@@ -693,8 +709,15 @@ def opt_alts(crate, s, depth=0):
             return opt_alts(crate, a[0], depth + 1) + [(x, "if-none") for x, _ in opt_alts(crate, a[1], depth + 1)]
         if path_is(s[1], "Option<T>::or_else") and len(a) == 2:
             return opt_alts(crate, a[0], depth + 1) + [(x, "if-none") for x, _ in opt_alts(crate, run_closure(a[1]), depth + 1)]
+        def payloads(opt):
+            out = []
+            for x, n in opt_alts(crate, opt, depth + 1):
+                for y, n2 in opt_alts(crate, ("field", ("downcast", x, "Some"), "0"), depth + 2):
+                    out.append((y, n or n2))
+            return out
+
         if path_is(s[1], "Option<T>::unwrap_or") and len(a) == 2:
-            return [(("field", ("downcast", x, "Some"), "0"), n) for x, n in opt_alts(crate, a[0], depth + 1)] + [(strip_sym(a[1]), "if-none")]
+            return payloads(a[0]) + [(strip_sym(a[1]), "if-none")]
         if path_is(s[1], "Option<T>::unwrap_or_else") and len(a) == 2:
-            return [(("field", ("downcast", x, "Some"), "0"), n) for x, n in opt_alts(crate, a[0], depth + 1)] + [(run_closure(a[1]), "if-none")]
+            return payloads(a[0]) + [(x, "if-none") for x, _ in opt_alts(crate, run_closure(a[1]), depth + 1)]
     return [(s, "")]
